@@ -337,7 +337,8 @@ type CallerSpec struct {
 	Fn     string
 	Target string
 	Args   []string
-	N      int // number of such sites in Fn (default 1)
+	Guards []string // when non-nil: the site's guard set must be exactly this
+	N      int      // number of such sites in Fn (default 1)
 	Why    string
 }
 
@@ -377,7 +378,12 @@ func (c *Ctx) CheckCallers(rule string, targets []string, specs []CallerSpec) {
 				if ok {
 					counts[i]++
 					matched = true
-					c.Ok(rule, name+"/"+s.Kind+":"+s.Target+"("+strings.Join(s.Args, ", ")+")", c.pos(s.Instr), "reviewed call site: "+sp.Why)
+					key := name + "/" + s.Kind + ":" + s.Target + "(" + strings.Join(s.Args, ", ") + ")"
+					if sp.Guards != nil && joinSorted(sp.Guards) != joinSorted(s.Guards) {
+						c.Bad(rule, key+"/guard", c.pos(s.Instr), "reviewed call site, but it now happens under different conditions: expected ["+joinSorted(sp.Guards)+"], found ["+joinSorted(s.Guards)+"] ("+sp.Why+")")
+					} else {
+						c.Ok(rule, key, c.pos(s.Instr), "reviewed call site: "+sp.Why)
+					}
 					break
 				}
 			}
@@ -411,7 +417,11 @@ func (p *Program) DumpCallers(sub string) {
 			for _, x := range s.Args {
 				o = append(o, fmt.Sprintf("%q", x))
 			}
-			fmt.Printf("\t\t{Fn: %q, Target: %q, Args: []string{%s}, Why: \"\"}, // %s\n", FuncName(fn), s.Target, strings.Join(o, ", "), p.Pos(s.Instr.Pos()))
+			var g []string
+			for _, x := range s.Guards {
+				g = append(g, fmt.Sprintf("%q", x))
+			}
+			fmt.Printf("\t\t{Fn: %q, Target: %q, Args: []string{%s}, Guards: []string{%s}, Why: \"\"}, // %s\n", FuncName(fn), s.Target, strings.Join(o, ", "), strings.Join(g, ", "), p.Pos(s.Instr.Pos()))
 		}
 	}
 }
